@@ -435,14 +435,14 @@ class C05(PropBase):
         g = Gen(rng)
         cases = []
         dist = {"adversarial": 0, "wellformed": 0, "by_arch": {}}
-        n_adv = 9000 if tier == "quick" else 120000
+        n_adv = 30000 if tier == "quick" else 300000
         for _ in range(n_adv):
             c = g.case()
             cases.append(c)
             dist["adversarial"] += 1
             a = c.split(" ", 1)[0]
             dist["by_arch"][a] = dist["by_arch"].get(a, 0) + 1
-        n_wf = 600 if tier == "quick" else 6000
+        n_wf = 2000 if tier == "quick" else 20000
         for _ in range(n_wf):
             arch = rng.choice([0, 1, 2, 3, 4, 5, 6])
             os_ = rng.choice([0, 1, 2])
